@@ -35,6 +35,7 @@ func vWDrop(*serverConn)                     {}
 func vWWritten(*serverConn)                  {}
 func vWLExit(*serverConn)                    {}
 func vAccess(any, string, string)            {}
+func vStep(*serverConn, string, uint32)      {}
 func vCliInit(*Conn)                         {}
 func vCliEv(*Conn, string, uint32, int64)    {}
 func vCliGate(*Conn, string, uint32)         {}
